@@ -12,9 +12,9 @@ func init() { props["C03"] = runC03 }
 
 func runC03(c *Ctx) {
 	runPinned(c, "C03")
-	n := int64(12000)
+	n := int64(72000)
 	if c.Thorough() {
-		n = 1000000
+		n = 4000000
 	}
 	c.Cases(n, func(idx int64, r *Rng) {
 		d := asm.D94
